@@ -322,6 +322,39 @@ func hasOPTInExtra(m *dns.Msg) (n int) {
 	return n
 }
 
+// optLabels classifies the OPT records of Extra by what the wire reader of
+// the library goes by (the header type) against what they are (the Go type).
+type optLabels struct {
+	stray, typed     int  // *dns.OPT with header type != OPT / == OPT
+	strayBehindTyped bool // some stray OPT sits after a typed one
+	strayStale       bool // a stray OPT with a non-zero TTL top octet
+	anyStale         bool // any *dns.OPT in Extra with a non-zero TTL top octet
+}
+
+func labelOPTs(m *dns.Msg) (l optLabels) {
+	for _, rr := range m.Extra {
+		o, ok := rr.(*dns.OPT)
+		if !ok || o == nil {
+			continue
+		}
+		if o.Hdr.Ttl>>24 != 0 {
+			l.anyStale = true
+		}
+		if o.Hdr.Rrtype == dns.TypeOPT {
+			l.typed++
+			continue
+		}
+		l.stray++
+		if l.typed > 0 {
+			l.strayBehindTyped = true
+		}
+		if o.Hdr.Ttl>>24 != 0 {
+			l.strayStale = true
+		}
+	}
+	return l
+}
+
 func (c *checker) viol(sig, what string, rc replayCase, step string, ref, got []byte, detail string) {
 	rc.Step = step
 	rc.RefHex = clipHex(ref)
@@ -352,6 +385,10 @@ func (c *checker) checkCase(idx int, m *dns.Msg, mt meta) {
 		return
 	}
 	ref := libPack(refMsg)
+	lab := labelOPTs(pristine)
+	if lab.stray > 0 {
+		r.Count("messages_with_mislabelled_opt", 1)
+	}
 	switch {
 	case ref.pan != nil:
 		r.Count("library_panics", 1)
@@ -431,6 +468,15 @@ func (c *checker) checkCase(idx int, m *dns.Msg, mt meta) {
 			if m.Rcode > 15 {
 				r.Count("handled_extended_rcode", 1)
 			}
+			if lab.stray > 0 {
+				r.Count("mislabelled_opt_handled_equal", 1)
+				if lab.strayBehindTyped && (m.Rcode > 15 || lab.anyStale) {
+					r.Count("mislabelled_opt_behind_typed_opt_handled_equal", 1)
+				}
+				if lab.strayStale {
+					r.Count("mislabelled_opt_stale_ttl_handled_equal", 1)
+				}
+			}
 			for _, sec := range [][]dns.RR{m.Answer, m.Ns, m.Extra} {
 				for _, rr := range sec {
 					c.typesHandled[typeName(rr)] = true
@@ -466,6 +512,10 @@ func (c *checker) checkCase(idx int, m *dns.Msg, mt meta) {
 			r.Count("declined_uncompressed_len_exactly_4097", 1)
 		}
 		r.Count("declined_"+dc, 1)
+		if lab.stray > 0 && lab.typed == 0 && pristine.Rcode > 15 && pristine.Rcode <= 0xFFF && ref.err != nil && ref.pan == nil && mt.Foreign == "" {
+			// only a mislabelled OPT to carry an extended rcode: the library refuses, and so did the packer
+			r.Count("mislabelled_opt_ext_rcode_no_typed_opt_both_refuse", 1)
+		}
 		if dc == "other" {
 			r.Sample(map[string]any{"unexplained_decline": rc.Summary, "index": idx, "phase": c.phase,
 				"uncompressed_len": ulenSafe(pristine), "library_packed_len": len(ref.b), "meta": mt})
